@@ -175,7 +175,7 @@ func genFlashTotal(r *Rng, tier string, emit Emit) {
 func genCompTotal(r *Rng, tier string, modelMax int, emit Emit) {
 	n := 5
 	if tier == "thorough" {
-		n = 60
+		n = 40
 	}
 	for it := 0; it < n; it++ {
 		rr := r.Fork(uint64(0xC0DEC000 + it))
@@ -232,7 +232,7 @@ func genCompTotal(r *Rng, tier string, modelMax int, emit Emit) {
 func genDiverse(r *Rng, tier string, modelMax int, emit Emit) {
 	n := 2
 	if tier == "thorough" {
-		n = 60
+		n = 30
 	}
 	for it := 0; it < n; it++ {
 		rr := r.Fork(uint64(0xE17A0000 + it))
